@@ -18,15 +18,17 @@ CLAIMED = {
          'receivers are paused and resumed mid-stream, datagrams are dropped / duplicated / reordered. After every '
          'delivered chunk the pipeline recorder must hold exactly the datapoints whose frames that chunk completed. '
          'Clients connect lazily, also Python-2-style pickle frames, pauses raised inside a chunk, cache-full signals '
-         'without flow control, MAX_RECEIVER_CONNECTIONS with a backlog, idle timeouts; no connection may stay '
-         'unread or unaccepted at the end.',
+         'without flow control, MAX_RECEIVER_CONNECTIONS with a backlog, idle timeouts, connection-logging settings, '
+         'clients ending with a reset, wall-clock steps (time.time() vs the reactor clock); no connection may stay '
+         'unread or unaccepted at the end, the UDP listening port must stay open.',
     ref='6 (C01)'),
   'C11': dict(
     technique=TECH + 'malformed frames built by construction interleaved with well-formed ones under the C01 '
     'segmentation schedule; exceptions escaping dataReceived/datagramReceived are caught at the SimNet seam',
     text='Invalid UTF-8, wrong field counts, unparsable and non-finite numbers, truncated / garbage pickles, pickles '
          'of the wrong shape or element types, inert opcode soups, over-length frames; oracle: no exception escapes, '
-         'no server-side close except for an over-length frame, recorder equals the well-formed datapoints.',
+         'no server-side close except for an over-length frame or a full idle period, recorder equals the well-formed '
+         'datapoints; connection limit with late connects, idle timeouts with quiet periods, wall-clock steps, resets.',
     ref='6 (C11), 9.2'),
   'C12': dict(
     technique=TECH + 'list files rewritten / emptied / deleted between datapoints while the 10 s reload timer runs on '
@@ -35,7 +37,8 @@ CLAIMED = {
          'missing), MIN_TIMESTAMP_RESOLUTION 0/1/10/60, -1 timestamps, NaN/inf values, same datapoints over line, UDP '
          'and pickle in interleaved segments; recorder and blacklistMatches/whitelistRejects counters must agree. The '
          'reference follows the documented 10 s reload schedule on its own timer; a file-system fault seam makes a list '
-         'file vanish between exists() and getmtime().',
+         'file vanish between exists() and getmtime(), another saves the file again while the daemon is reading it; '
+         'sub-second mtimes with reload ticks inside a second, lists absent at start, malformed traffic in between.',
     ref='6 (C12)'),
   'C02': dict(
     technique=TECH + 'refinement of the real MetricCache against a dict-of-dict reference model stepped in '
@@ -52,7 +55,7 @@ CLAIMED = {
          'IOError/ENOSPC/RuntimeError or stall) x rate limits x strategies; the recorded history of drains, backend '
          'calls, counters and logged errors is checked batch by batch; every write is checked against the files '
          'existing at that call; with the daemon\'s own reporting on, reported + pending counters must equal the '
-         'backend history. A share of the seeded runs is additionally re-executed once per single-fault placement '
+         'backend history (the reporting tick is pre-empted line by line against the writer thread). A share of the seeded runs is additionally re-executed once per single-fault placement '
          '(and a sample of pairs) of its fault-free version.',
     ref='6 (C03)'),
   'C04': dict(
@@ -60,7 +63,8 @@ CLAIMED = {
     'the writer loop; oracle: nothing accepted before the stop is left in the cache when the writer thread exits',
     text='Seeded placement of an orderly stop between any two receiver operations and, by schedule, between any two '
          'lines of the writer loop (idle sleep, rate-limit wait, mid-pass), x strategies x MIN_TIMESTAMP_LAG x limits '
-         'x MAX_UPDATES_PER_SECOND_ON_SHUTDOWN, with cache queries and clock jumps in the workload; bounded liveness: '
+         'x MAX_UPDATES_PER_SECOND_ON_SHUTDOWN, with cache queries, clock jumps, a schema file missing at a reload tick and '
+         'a shutdown window (connections still delivering while the first shutdown phase waits) in the workload; bounded liveness: '
          'the writer exits within 1 h virtual. A share of the seeded runs is additionally re-executed with the stop '
          'injected at every line the writer thread executes after the last receiver operation (crash-point '
          'enumeration relative to the base run\'s recorded schedule).',
@@ -81,7 +85,8 @@ CLAIMED = {
     'ring before the event, and with a freshly built ring',
     text='Clauses: compatibility with the published algorithm for the same add/remove history; minimal disruption '
          '(preference order before vs after, affected node deleted/inserted); history independence vs a fresh ring '
-         '(one known finding: collision bumping). Test positions: breakpoints of both rings +-1, seeded stripe, full '
+         '(one known finding: collision bumping); the relay\'s answer vs the published replica selection on a fresh ring; '
+         'a destination leaves the ring only after DYNAMIC_ROUTER_MAX_RETRIES attempts in a row failed. Test positions: breakpoints of both rings +-1, seeded stripe, full '
          '65 536 sweeps in a share of thorough runs.',
     ref='6 (C06), 9.7'),
   'C07': dict(
@@ -92,7 +97,8 @@ CLAIMED = {
          'most once; queue within the hard limit; every discard counted and only at the limit; removal re-routes '
          'queued datapoints (conservation per event); stop closes only after the queue is flushed; bounded liveness '
          'after faults stop; after every event accepted-but-unwritten == queue contents; connection-quality resets, '
-         'deep backlogs, reported drop counters. One known finding (fractional hard limit).',
+         'deep backlogs, reported drop counters; nothing routable stays in the hold-back buffer once a destination is '
+         'back. One known finding (fractional hard limit).',
     ref='6 (C07)'),
   'C08': dict(
     technique=TECH + 'aggregation pipeline of a booted carbon-aggregator on the virtual clock: arrivals (late, '
@@ -103,14 +109,16 @@ CLAIMED = {
          'function over a suffix of the values received for its interval that includes everything since the last '
          'emission (all of them inside the retention horizon); re-emission only on new data; <= MAX+2 buffers after a '
          'flush, all received values covered by an emission after the flush that follows them; idle series and their '
-         'timers released; pass-through exactly once; whole-name matching; rule-file edits under the running daemon.',
+         'timers released; pass-through exactly once (also for raw series named like another rule\'s aggregate); '
+         'whole-name matching; rule-file edits under the running daemon; a re-read failing with an I/O error must leave '
+         'rules and buffered values alone (judged up to the next attempt).',
     ref='6 (C08)'),
   'C09': dict(
     technique=TECH + 'bounded-liveness oracle at quiescence over seeded interleavings of the storing thread, the '
     'writer thread and receiver connect/disconnect events around the cache watermarks',
     text='Cache side (world B): flow control on, tiny caches, pause/resume cycles with connection churn, hot '
-         'pre-emption in events.py / protocols.py; at quiescence a cache below its low watermark must leave no '
-         'receiver paused. Relay side (world C): 1..4 destinations, all proportions of queue size / watermark / batch '
+         'pre-emption in events.py / protocols.py; at quiescence a cache really holding fewer datapoints than its low '
+         'watermark (reference count, not the cache\'s own counter) must leave no receiver paused. Relay side (world C): 1..4 destinations, all proportions of queue size / watermark / batch '
          'size, hot keys, destinations that never come back; the release condition is evaluated after every event.',
     ref='6 (C09)'),
   'C10': dict(
@@ -119,14 +127,17 @@ CLAIMED = {
     text='MAX_CACHE_SIZE 1..6, 20, 40, flow control on/off, all strategies: cache.size <= hard limit at every '
          'scheduling point; a refused store fires the overflow signal exactly once and changes neither contents nor '
          'key set; a duplicate timestamp is accepted when full; with instrumentation on, reported + pending '
-         'cache.overflow equals the refusals signalled. One known finding (fractional hard limit).',
+         'cache.overflow equals the refusals signalled; failing backend writes, refusals inside a shutdown window, '
+         'settings split over the program and instance sections of carbon.conf. One known finding (fractional hard limit).',
     ref='6 (C10), 9.8'),
   'C15': dict(
     technique=TECH + 'two-party simulation: the relay\'s real client protocol writes to a simulated connection whose '
     'peer re-segments the bytes into a real listener protocol; connection resets and stalls happen mid-run',
     text='Random 64-bit float patterns, boundary magnitudes, +-inf, -0.0, 64-bit ints, fractional timestamps, unicode '
          'names, batch sizes 1..500, pickle and line protocols: what the downstream listener decodes equals what the '
-         'relay accepted (pickle exact; line: int(ts), |dv| <= 5e-11 or 1 ulp). One known finding (double rounding).',
+         'relay accepted (pickle exact; line: int(ts), |dv| <= 5e-11 or 1 ulp); the downstream listener pauses inside a '
+         'chunk and resumes later (every complete frame read must be ingested), closes only after a full idle period. '
+         'One known finding (double rounding).',
     ref='6 (C15)'),
   'C16': dict(
     technique=TECH + 'generated relay-rules.conf / aggregation-rules.conf loaded by the booted relay; reference '
@@ -135,7 +146,9 @@ CLAIMED = {
     text='rules router: first match, continue chain, default last, intersected with the currently configured set; '
          'aggregation-aware routers: every input of an aggregate is routed to the hash destinations of the aggregate '
          'name, unmatched names by their own name; aggregation-rules.conf is edited under the running relay and the '
-         'reference follows the documented 10 s reload schedule.',
+         'reference follows the documented 10 s reload schedule; the file may be absent at start, vanish, come back, '
+         'be emptied; a re-read may fail with an I/O error (then the rule set in force is the old one or a complete '
+         'later one, never a prefix); the name cache (LRU / TTL) reads a clock that may jump between two reads.',
     ref='6 (C16)'),
   'C17': dict(
     technique=TECH + 'seeded search over line-level interleavings of the storing and draining threads on the real '
@@ -149,8 +162,8 @@ CLAIMED = {
     text='Generated storage-schemas.conf / storage-aggregation.conf (1..6 sections, overlapping patterns, missing '
          'keys, all unit suffixes) loaded by the real code; every simdb.create() argument tuple must equal the '
          'reference evaluation of a file version in force between the writer\'s previous backend call and the create '
-         '(reference versions follow the documented 60 s schedule on the harness\'s own timer; unparseable files '
-         'are part of the workload).',
+         '(reference versions follow the documented 60 s schedule on the harness\'s own timer; unparseable and '
+         'missing files, same-mtime rewrites and older files moved into place are part of the workload).',
     ref='6 (C19)'),
   'C20': dict(
     technique=TECH + 'TokenBucket on the virtual clock driven by seeded acquisition / clock-step / limit-change '
